@@ -37,7 +37,7 @@ var comPool = []string{"CHF", "USD", "EUR", "AAPL", "BTC", "X1", "Gold"}
 var comPoolUni = []string{"Ä", "円"}
 var typeNames = []string{"Assets", "Liabilities", "Equity", "Income", "Expenses"}
 
-var descWords = []string{"Lunch", "rent", "Salary", "ACME", "buy", "sell", "fee", "Zürich", "No.", "12", "a-b", "x/y", "(ref)", "50%", "#tag", "@home", "*"}
+var descWords = []string{"Lunch", "rent", "Salary", "ACME", "buy", "sell", "fee", "Zürich", "No.", "12", "a-b", "x/y", "(ref)", "50%", "#tag", "@home", "*", "\ufffd", "口座"}
 
 type acct struct {
 	name      string
@@ -202,6 +202,13 @@ func DrawQty(t *rapid.T, maxDec int, allowNeg bool) string {
 	case kind == 1:
 		// large
 		return fmt.Sprintf("%d", rapid.Int64Range(1_000_000, 999_999_999_999).Draw(t, "big"))
+	case kind == 6 && maxDec >= 9:
+		// dust: below the 8th decimal
+		s := fmt.Sprintf("0.%0*d", maxDec, rapid.IntRange(1, 9999).Draw(t, "dust"))
+		if allowNeg && rapid.Bool().Draw(t, "dustNeg") {
+			s = "-" + s
+		}
+		return s
 	}
 	dec := rapid.SampledFrom([]int{0, 0, 1, 2, 2, 2, 3, maxDec, maxDec}).Draw(t, "dec")
 	if dec > maxDec {
